@@ -164,6 +164,10 @@ def synthetic(rng, wild=False):
     # transitions one day apart (within the spacing assumption)
     Z.append(('close-transitions', W([ts(2000, 1, 1), ts(2000, 1, 2), ts(2000, 1, 3, 12)], [1, 0, 1],
                                      [(0, False, 'AAA'), (3600, True, 'BBB')])))
+    # more than 128 local time types (the type index is an unsigned byte: 0..255)
+    many = [(60 * (i - 100), bool(i % 5 == 3), 'A%02d' % (i % 40)) for i in range(200)]      # abbreviation offsets are bytes too
+    Z.append(('many-types', W([ts(1970, 1, 1) + 30 * 86400 * (i + 1) for i in range(199)], list(range(1, 200)), many)))
+    Z.append(('many-types-high-first', W([ts(1980), ts(1990), ts(2000)], [199, 130, 128], many)))
     # random well-spaced zones
     for n in range(6):
         k = rng.randint(2, 12)
